@@ -256,10 +256,8 @@ func (r *intraProxyStreamReceiver) Run(ctx context.Context, shardManager ShardMa
 	defer func() {
 		// A successor may have been started for the same shard pair while this receiver was still shutting down: only
 		// remove the registration if it is still ours.
-		if current, ok := r.shardManager.GetActiveReceiver(r.sourceShardID); ok && current == ActiveReceiver(r) {
-			vfYield("activereceiver.window")
-			r.shardManager.UnregisterActiveReceiver(r.sourceShardID)
-		}
+		vfYield("activereceiver.window")
+		r.shardManager.UnregisterActiveReceiver(r.sourceShardID, r)
 	}()
 
 	// Register client-side intra-proxy stream in tracker
